@@ -73,6 +73,8 @@ def check(prog: Program, run: Run) -> None:
              "decoder", floor=3)
     run.rule("C01.R8", "the atomic writer and reader lay out value bits, padding, byte order and "
              "mask by the same formulas (shared with C02.R2)", floor=6)
+    run.rule("C01.R9", "LINEAR / SCALE-LINEAR / TAB-INTP: the encoding formula is the algebraic "
+             "inverse of the decoding formula (shared with C03.R1)", floor=2)
     _pairing(prog, run)
     _positioning(prog, run)
     _recording(prog, run)
@@ -83,6 +85,8 @@ def check(prog: Program, run: Run) -> None:
     from . import c02
     from .common import run_as
     run_as(run, "C02.R2", "C01.R8", lambda r: c02._siblings(prog, r))
+    from . import compu
+    run_as(run, "C03.R1", "C01.R9", lambda r: compu.linear_forms(prog, r, "C03.R1", "C03.R1"))
 
 
 # ----------------------------------------------------------------------- R1
